@@ -33,7 +33,7 @@ static void gen_stream_bytes(Rng& r, std::vector<uint8_t>& out) {
   if (style < 4) {                       // concatenation of well-formed items
     unsigned n = (unsigned)r.range(1, 5);
     gp.allow_big = r.chance(1, 30);
-    for (unsigned i = 0; i < n; i++) ref_encode(gen_mv(r, gp), out);
+    for (unsigned i = 0; i < n; i++) gen_encode(r, gen_mv(r, gp), out);
   } else if (style < 7) {                // raw head sequence, no structure
     unsigned n = (unsigned)r.range(1, 12);
     for (unsigned i = 0; i < n; i++) raw_token(r, out, false);
